@@ -5,7 +5,7 @@
     B, adversarial network (Model/Mrp.v).  Quantification is over every
     operation sequence of the adversary/scheduler ([list op]). *)
 From RsM Require Import Lib.MachInt Model.Dedup Model.Mrp Proofs.DedupFacts
-  Proofs.MrpSys Proofs.MrpTheorems.
+  Proofs.MrpSys Proofs.MrpTheorems Proofs.MrpLive.
 From Coq Require Import Sorted.
 Open Scope N_scope.
 
@@ -71,6 +71,23 @@ Theorem C09_ack_completes_send : forall (s : sys) (j : nat) (c k : N),
   a_results (step s (DeliverAck j)) = a_results s ++ [(c, true)].
 Proof. exact ack_completes_send. Qed.
 Print Assumptions C09_ack_completes_send.
+
+(** The composed statement: message [c] is pending after [k] retransmissions;
+    ONE copy of it reaches B; then anything happens - submissions on other
+    exchanges, timer expiries within the retransmission budget, deliveries,
+    duplications and losses of data datagrams, duplications of
+    acknowledgements - except that no acknowledgement is delivered or lost;
+    then ONE acknowledgement of [c] (there is one in the network) reaches A:
+    the send completes with success. *)
+Theorem C09_one_copy_one_ack_suffice : forall (s : sys) (c k : N) (i : nat) (mid : list op),
+  a_retr s = Some (c, k) -> nth_error (ab s) i = Some (c, Main) ->
+  forallb keeps_acks mid = true -> k + ntimers mid <= 5 ->
+  let s2 := run_sys (step s (Deliver i)) mid in
+  exists j, nth_error (ba s2) j = Some (c, Main) /\
+            a_retr (step s2 (DeliverAck j)) = None /\
+            a_results (step s2 (DeliverAck j)) = a_results s2 ++ [(c, true)].
+Proof. exact one_copy_one_ack_suffice. Qed.
+Print Assumptions C09_one_copy_one_ack_suffice.
 
 Theorem C09_stale_ack_ignored : forall (s : sys) (j : nat) (c k c' : N),
   a_retr s = Some (c, k) -> nth_error (ba s) j = Some (c', Main) -> c <> c' ->
@@ -144,3 +161,14 @@ Example C09_overtaken_witness :
   let s := run_sys (sys_init 100) ops in
   a_results s = [(100, true)] /\ b_delivered s = [] /\ b_overtaken s = [100].
 Proof. vm_compute. repeat split. Qed.
+
+(** hypotheses of [C09_one_copy_one_ack_suffice] on a reachable state: first
+    copy lost, one retransmission, which gets through; three more
+    retransmissions and other traffic before the acknowledgement arrives *)
+Example C09_ex_one_copy_one_ack :
+  let s := run_sys (sys_init 100) [ASend; DropAB 0; ATimer] in
+  let mid := [AOther; ATimer; DupBA 0; ATimer; Deliver 0; DropAB 0; ATimer] in
+  a_retr s = Some (100, 1) /\ nth_error (ab s) 0 = Some (100, Main) /\
+  forallb keeps_acks mid = true /\ 1 + ntimers mid <= 5 /\
+  a_results (step (run_sys (step s (Deliver 0)) mid) (DeliverAck 0)) = [(100, true)].
+Proof. vm_compute. repeat split; try reflexivity; discriminate. Qed.
